@@ -115,6 +115,9 @@ func (o *Oblig) OK() bool {
 	if o.Soft {
 		return true
 	}
+	if o.Kind == "canary" {
+		return o.Res == nil || o.Res.Status != "unsat" // proving false is the failure
+	}
 	if o.Cover {
 		return o.Res != nil && o.Res.Status == "sat"
 	}
